@@ -322,6 +322,17 @@ def check_c20(tier, seed, res, work):
         entries = []
         for i in range(n):
             content = ''.join(rng.choice(['FROM x AS y SELECT y', '"quote"', '\\back', '\n', '\r\n', '<tag>&amp;', 'café', ' ', '中文', '\t', ' ', '{', '}', '\x01', '/* c */', 'é' * 3]) for _ in range(rng.randint(0, 12)))
+            # large rule texts: multi-byte characters placed across every power-of-two offset a buffered reader
+            # could cut at (512 ... 64 KiB), plus sizes exactly at / around those boundaries
+            if trial % 3 == 2 and i < 2:
+                unit = rng.choice(['é', '中', '😀', 'aé', '\u2028'])
+                size = rng.choice([512, 1024, 2048, 4096, 8192, 32768, 65536]) * rng.choice([1, 1, 2, 3])
+                pad = rng.choice([0, 1, 2, 3])
+                body = ('x' * pad + unit * (size // len(unit.encode('utf-8')) + 8))
+                content = '/** @id big%d */\nFROM x AS y WHERE y.f() == "%s" SELECT y' % (i, body)
+                if rng.random() < 0.3:
+                    content = content.encode('utf-8')[:size + rng.choice([-1, 0, 1])].decode('utf-8', 'ignore')
+                stats['large_rule_files'] += 1
             name = rng.choice(['a', 'B', 'rule-1', 'x.y', 'r r', 'ü', '.hidden', '._mac', '#tmp', '~bak', '-dash']) + str(i) + '.cql'
             if i == 0 and rng.random() < 0.15:
                 name = '.cql'
